@@ -187,6 +187,14 @@ Theorem C15_refuted_false_dep :
 Proof. exact (conj refuted_false_dep refuted_false_loop). Qed.
 Print Assumptions C15_refuted_false_dep.
 
+(** var _ = f(); var _ int = g(); var _ = h() : all blank variables share yaegi's symbol [_], the
+    earlier declarations wait for the last one: Go f g h, yaegi h f g.  (A single declaration with
+    blanks per package, typed or not, is an ordinary variable in both models: main stream.) *)
+Theorem C15_refuted_blank_shared :
+  y_order w_blanks = Some [3; 1; 2]%N /\ g_order w_blanks = Some [1; 2; 3]%N.
+Proof. exact refuted_blank_shared. Qed.
+Print Assumptions C15_refuted_blank_shared.
+
 (** main imports p02 then p01 (independent): Go initialises in import-path order, yaegi in import order. *)
 Theorem C15_refuted_pkg_order :
   y_trace w_pkg_order = Some [21; 22; 11; 12; 91; 0]%N /\ g_trace w_pkg_order = Some [11; 12; 21; 22; 91; 0]%N.
